@@ -77,9 +77,11 @@ def execute(acc, case):
                     ans = DiameterMessage.load(R.encode(am))[0]
                     answered.append(i)
                     dispatch_threads.append(app.create_message_thread(ans))
-        sched.spawn("wire", wire)
+        wire_task = sched.spawn("wire", wire)
         all_back = sched.run_until(lambda: len(results) == k, 30.0, "callers-return")
-        sched.run_until(lambda: all(t.done for t in dispatch_threads), 5.0, "dispatch-finishes")
+        # quiescence: the wire task has handed over its last answer and every dispatch thread the library started (they
+        # are registered with the scheduler under the library's own names) has finished
+        sched.run_until(lambda: wire_task.done and all(t.done for t in sched.tasks if t.name.startswith("recv_answer_")), 5.0, "dispatch-finishes")
         acc.counters["executions"] += 1
         wit.update({"answered_order": answered, "returned": sorted(results), "tasks": sched.blocked_report(), "deaths": sched.deaths,
                     "schedule": sched.schedule_hash(), "choices": sched.choices[:3000]})
